@@ -1,0 +1,243 @@
+//go:build verif
+
+package gjkr
+
+// Thin exported accessors used by the out-of-tree verification harness (properties C01, C02).
+// No behaviour of their own: constructors for the protocol messages, getters for their fields,
+// the first protocol state, and a read-only view of a member's internal protocol data.
+
+import (
+	"math/big"
+
+	bn256 "github.com/ethereum/go-ethereum/crypto/bn256/cloudflare"
+	"github.com/keep-network/keep-core/pkg/crypto/ephemeral"
+	"github.com/keep-network/keep-core/pkg/net"
+	"github.com/keep-network/keep-core/pkg/protocol/group"
+	"github.com/keep-network/keep-core/pkg/protocol/state"
+)
+
+// VerifInitialState returns the first state of the protocol for the given member, exactly as
+// Execute builds it.
+func VerifInitialState(channel net.BroadcastChannel, member *LocalMember) state.SyncState {
+	return &ephemeralKeyPairGenerationState{
+		channel: channel,
+		member:  member.InitializeEphemeralKeysGeneration(),
+	}
+}
+
+// ---- message constructors
+
+func VerifEphemeralPublicKeyMessage(
+	sender group.MemberIndex,
+	keys map[group.MemberIndex]*ephemeral.PublicKey,
+	sessionID string,
+) *EphemeralPublicKeyMessage {
+	return &EphemeralPublicKeyMessage{senderID: sender, ephemeralPublicKeys: keys, sessionID: sessionID}
+}
+
+func VerifPeerSharesMessage(
+	sender group.MemberIndex,
+	shares map[group.MemberIndex][2][]byte,
+	sessionID string,
+) *PeerSharesMessage {
+	m := newPeerSharesMessage(sender, sessionID)
+	for k, v := range shares {
+		m.shares[k] = &peerShares{encryptedShareS: v[0], encryptedShareT: v[1]}
+	}
+	return m
+}
+
+func VerifMemberCommitmentsMessage(
+	sender group.MemberIndex,
+	commitments []*bn256.G1,
+	sessionID string,
+) *MemberCommitmentsMessage {
+	return &MemberCommitmentsMessage{senderID: sender, commitments: commitments, sessionID: sessionID}
+}
+
+func VerifSecretSharesAccusationsMessage(
+	sender group.MemberIndex,
+	keys map[group.MemberIndex]*ephemeral.PrivateKey,
+	sessionID string,
+) *SecretSharesAccusationsMessage {
+	return &SecretSharesAccusationsMessage{senderID: sender, accusedMembersKeys: keys, sessionID: sessionID}
+}
+
+func VerifMemberPublicKeySharePointsMessage(
+	sender group.MemberIndex,
+	points []*bn256.G2,
+	sessionID string,
+) *MemberPublicKeySharePointsMessage {
+	return &MemberPublicKeySharePointsMessage{senderID: sender, publicKeySharePoints: points, sessionID: sessionID}
+}
+
+func VerifPointsAccusationsMessage(
+	sender group.MemberIndex,
+	keys map[group.MemberIndex]*ephemeral.PrivateKey,
+	sessionID string,
+) *PointsAccusationsMessage {
+	return &PointsAccusationsMessage{senderID: sender, accusedMembersKeys: keys, sessionID: sessionID}
+}
+
+func VerifMisbehavedEphemeralKeysMessage(
+	sender group.MemberIndex,
+	keys map[group.MemberIndex]*ephemeral.PrivateKey,
+	sessionID string,
+) *MisbehavedEphemeralKeysMessage {
+	return &MisbehavedEphemeralKeysMessage{senderID: sender, privateKeys: keys, sessionID: sessionID}
+}
+
+// ---- message getters
+
+func (m *EphemeralPublicKeyMessage) VerifKeys() map[group.MemberIndex]*ephemeral.PublicKey {
+	return m.ephemeralPublicKeys
+}
+func (m *EphemeralPublicKeyMessage) VerifSessionID() string { return m.sessionID }
+
+func (m *PeerSharesMessage) VerifShares() map[group.MemberIndex][2][]byte {
+	r := make(map[group.MemberIndex][2][]byte)
+	for k, v := range m.shares {
+		r[k] = [2][]byte{v.encryptedShareS, v.encryptedShareT}
+	}
+	return r
+}
+func (m *PeerSharesMessage) VerifSessionID() string { return m.sessionID }
+
+func (m *MemberCommitmentsMessage) VerifCommitments() []*bn256.G1 { return m.commitments }
+func (m *MemberCommitmentsMessage) VerifSessionID() string       { return m.sessionID }
+
+func (m *SecretSharesAccusationsMessage) VerifAccused() map[group.MemberIndex]*ephemeral.PrivateKey {
+	return m.accusedMembersKeys
+}
+func (m *SecretSharesAccusationsMessage) VerifSessionID() string { return m.sessionID }
+
+func (m *MemberPublicKeySharePointsMessage) VerifPoints() []*bn256.G2 { return m.publicKeySharePoints }
+func (m *MemberPublicKeySharePointsMessage) VerifSessionID() string   { return m.sessionID }
+
+func (m *PointsAccusationsMessage) VerifAccused() map[group.MemberIndex]*ephemeral.PrivateKey {
+	return m.accusedMembersKeys
+}
+func (m *PointsAccusationsMessage) VerifSessionID() string { return m.sessionID }
+
+func (m *MisbehavedEphemeralKeysMessage) VerifKeys() map[group.MemberIndex]*ephemeral.PrivateKey {
+	return m.privateKeys
+}
+func (m *MisbehavedEphemeralKeysMessage) VerifSessionID() string { return m.sessionID }
+
+// ---- read-only view of a member
+
+// VerifView exposes the protocol data a member holds in the given state. Fields that do not
+// exist yet in that state are nil.
+type VerifView struct {
+	ID                       group.MemberIndex
+	Group                    *group.Group
+	H                        *bn256.G1
+	EphemeralKeyPairs        map[group.MemberIndex]*ephemeral.KeyPair
+	SymmetricKeys            map[group.MemberIndex]ephemeral.SymmetricKey
+	SecretCoefficients       []*big.Int
+	SelfShareS, SelfShareT   *big.Int
+	QualifiedSharesS         map[group.MemberIndex]*big.Int
+	PeerCommitments          map[group.MemberIndex][]*bn256.G1
+	GroupPrivateKeyShare     *big.Int
+	PublicKeySharePoints     []*bn256.G2
+	ValidPoints              map[group.MemberIndex][]*bn256.G2
+	Expected                 []group.MemberIndex
+	RevealedShares           map[group.MemberIndex]map[group.MemberIndex]*big.Int
+	ReconstructedPrivateKeys map[group.MemberIndex]*big.Int
+	Result                   *Result
+
+	evidence evidenceLog
+}
+
+// LoggedEphemeralKey returns the ephemeral public key of sender for receiver as stored in the
+// member's evidence log (nil when absent).
+func (v *VerifView) LoggedEphemeralKey(sender, receiver group.MemberIndex) *ephemeral.PublicKey {
+	m := v.evidence.ephemeralPublicKeyMessage(sender)
+	if m == nil {
+		return nil
+	}
+	return m.ephemeralPublicKeys[receiver]
+}
+
+func (v *VerifView) core(m *memberCore) {
+	v.ID = m.ID
+	v.Group = m.group
+	v.H = m.protocolParameters.H
+	v.evidence = m.evidenceLog
+}
+func (v *VerifView) eph(m *EphemeralKeyPairGeneratingMember) {
+	v.core(m.memberCore)
+	v.EphemeralKeyPairs = m.ephemeralKeyPairs
+}
+func (v *VerifView) symm(m *SymmetricKeyGeneratingMember) {
+	v.eph(m.EphemeralKeyPairGeneratingMember)
+	v.SymmetricKeys = m.symmetricKeys
+}
+func (v *VerifView) committing(m *CommittingMember) {
+	v.symm(m.SymmetricKeyGeneratingMember)
+	v.SecretCoefficients = m.secretCoefficients
+	v.SelfShareS, v.SelfShareT = m.selfSecretShareS, m.selfSecretShareT
+}
+func (v *VerifView) verifying(m *CommitmentsVerifyingMember) {
+	v.committing(m.CommittingMember)
+	v.QualifiedSharesS = m.receivedQualifiedSharesS
+	v.PeerCommitments = m.receivedPeerCommitments
+}
+func (v *VerifView) qualified(m *QualifiedMember) {
+	v.verifying(m.CommitmentsVerifyingMember)
+	v.GroupPrivateKeyShare = m.groupPrivateKeyShare
+}
+func (v *VerifView) sharing(m *SharingMember) {
+	v.qualified(m.QualifiedMember)
+	v.PublicKeySharePoints = m.publicKeySharePoints
+	v.ValidPoints = m.receivedValidPeerPublicKeySharePoints
+}
+func (v *VerifView) revealing(m *RevealingMember) {
+	v.sharing(m.SharingMember)
+	v.Expected = m.expectedMembersForReconstruction
+}
+func (v *VerifView) reconstructing(m *ReconstructingMember) {
+	v.revealing(m.RevealingMember)
+	v.RevealedShares = make(map[group.MemberIndex]map[group.MemberIndex]*big.Int)
+	for _, s := range m.revealedMisbehavedMembersShares {
+		v.RevealedShares[s.misbehavedMemberID] = s.peerSharesS
+	}
+	v.ReconstructedPrivateKeys = m.reconstructedIndividualPrivateKeys
+}
+
+// VerifInspect returns the view of the member driving the given protocol state.
+func VerifInspect(s state.SyncState) *VerifView {
+	v := &VerifView{}
+	switch st := s.(type) {
+	case *ephemeralKeyPairGenerationState:
+		v.eph(st.member)
+	case *symmetricKeyGenerationState:
+		v.symm(st.member)
+	case *commitmentState:
+		v.committing(st.member)
+	case *commitmentsVerificationState:
+		v.verifying(st.member)
+	case *sharesJustificationState:
+		v.verifying(st.member.CommitmentsVerifyingMember)
+	case *qualificationState:
+		v.qualified(st.member)
+	case *pointsShareState:
+		v.sharing(st.member)
+	case *pointsValidationState:
+		v.sharing(st.member)
+	case *pointsJustificationState:
+		v.sharing(st.member.SharingMember)
+	case *keyRevealState:
+		v.revealing(st.member)
+	case *reconstructionState:
+		v.reconstructing(st.member)
+	case *combinationState:
+		v.reconstructing(st.member.ReconstructingMember)
+	case *finalizationState:
+		v.reconstructing(st.member.ReconstructingMember)
+		v.Result = st.result()
+	default:
+		return nil
+	}
+	return v
+}
